@@ -37,6 +37,7 @@ type Program struct {
 	ghostCache   map[*ssa.Function]*ghostSet
 	libCache     map[string]*ssa.Function
 	funcValues   map[string][]*ssa.Function
+	curProp      string   // the property being checked (tagged assumes / nopanic apply to their properties only)
 	localPinList []string // pins.json "_locals": locals named in loop invariants (see renamedLocal)
 }
 
